@@ -60,6 +60,7 @@ type vpC20Rec struct {
 	body   []byte
 	hop    int // index of the hop token in the target, -1 if none
 	status int // status the origin answered with
+	stalled bool // the head announced a body that never arrived
 }
 
 type vpC20Hop struct {
@@ -75,6 +76,7 @@ type vpC20Net struct {
 	dials []string
 	srv   []net.Conn
 	wg    sync.WaitGroup
+	stalled bool
 }
 
 var vpC20HopRe = regexp.MustCompile(`hop(\d+)`)
@@ -97,7 +99,7 @@ func (n *vpC20Net) dial(addr string) (net.Conn, error) {
 }
 
 // vpC20ReadRequest is the origin's own minimal HTTP/1.1 request reader.
-func vpC20ReadRequest(br *bufio.Reader) (*vpC20Rec, error) {
+func vpC20ReadRequest(br *bufio.Reader, beforeBody func()) (*vpC20Rec, error) {
 	line, err := br.ReadString('\n')
 	if err != nil {
 		return nil, err
@@ -122,6 +124,10 @@ func vpC20ReadRequest(br *bufio.Reader) (*vpC20Rec, error) {
 		}
 		rec.hdr = append(rec.hdr, [2]string{l[:i], strings.TrimSpace(l[i+1:])})
 	}
+	if m := vpC20HopRe.FindAllStringSubmatch(rec.target, -1); len(m) > 0 {
+		rec.hop, _ = strconv.Atoi(m[len(m)-1][1])
+	}
+	beforeBody()
 	chunked, cl := false, -1
 	for _, kv := range rec.hdr {
 		switch strings.ToLower(kv[0]) {
@@ -140,7 +146,7 @@ func vpC20ReadRequest(br *bufio.Reader) (*vpC20Rec, error) {
 		for {
 			l, err := br.ReadString('\n')
 			if err != nil {
-				return nil, err
+				return rec, err
 			}
 			sz, err := strconv.ParseInt(strings.TrimSpace(strings.SplitN(l, ";", 2)[0]), 16, 32)
 			if err != nil {
@@ -151,14 +157,14 @@ func vpC20ReadRequest(br *bufio.Reader) (*vpC20Rec, error) {
 			}
 			buf := make([]byte, sz+2)
 			if _, err := io.ReadFull(br, buf); err != nil {
-				return nil, err
+				return rec, err
 			}
 			rec.body = append(rec.body, buf[:sz]...)
 		}
 		for { // trailer section
 			l, err := br.ReadString('\n')
 			if err != nil {
-				return nil, err
+				return rec, err
 			}
 			if strings.TrimRight(l, "\r\n") == "" {
 				break
@@ -167,11 +173,8 @@ func vpC20ReadRequest(br *bufio.Reader) (*vpC20Rec, error) {
 	case cl > 0:
 		rec.body = make([]byte, cl)
 		if _, err := io.ReadFull(br, rec.body); err != nil {
-			return nil, err
+			return rec, err
 		}
-	}
-	if m := vpC20HopRe.FindAllStringSubmatch(rec.target, -1); len(m) > 0 {
-		rec.hop, _ = strconv.Atoi(m[len(m)-1][1])
 	}
 	return rec, nil
 }
@@ -181,8 +184,26 @@ func (n *vpC20Net) serve(c net.Conn, addr string) {
 	defer c.Close()
 	br := bufio.NewReader(c)
 	for {
-		rec, err := vpC20ReadRequest(br)
+		// The head is complete before the body is awaited; a client that announces a body it never
+		// sends must not hang the harness: the announced-but-missing body is recorded as "stalled".
+		rec, err := vpC20ReadRequest(br, func() {
+			d := 3 * time.Second
+			n.mu.Lock()
+			if n.stalled {
+				d = 50 * time.Millisecond
+			}
+			n.mu.Unlock()
+			c.SetReadDeadline(time.Now().Add(d))
+		})
+		c.SetReadDeadline(time.Time{})
 		if err != nil {
+			if ne, ok := err.(net.Error); ok && ne.Timeout() && rec != nil {
+				rec.addr, rec.stalled = addr, true
+				n.mu.Lock()
+				n.stalled = true
+				n.recs = append(n.recs, *rec)
+				n.mu.Unlock()
+			}
 			return
 		}
 		rec.addr = addr
@@ -580,6 +601,9 @@ func TestVP_C20_RedirectCredentials(t *testing.T) {
 			return fmt.Sprintf("%s => %d requests, err=%v", c.String(), len(recs), err)
 		})
 		for _, r := range recs {
+			if r.stalled {
+				vpExtra("c20_requests_announcing_a_body_never_sent", 1)
+			}
 			if r.status == 303 {
 				vpExtra("c20_303_answers", 1)
 			}
